@@ -757,7 +757,9 @@ struct G
             if (rng.chance(cfg.p_label * 0.7))
                 l.inv = label(invariant(sc));
             if (rng.chance(cfg.p_label * 0.4)) {
-                E r = lit();
+                // a literal, or an expression with subscripts, calls and parentheses (error recovery inside those
+                // keeps the label parsing while it discards productions)
+                E r = rng.chance(0.5) ? lit() : int_expr(sc, std::max(1, cfg.depth), true);
                 if (rng.chance(0.3)) {
                     r.s += " : " + std::to_string(rng.range(1, 9));
                 }
